@@ -6910,9 +6910,14 @@ class NetCDFRead(IORead):
 
                     if term == "interval":
                         interval = cell_methods.pop(0)
-                        if cell_methods[0] != ")":
+                        if cell_methods[0] != ")" and not re.search(
+                            r"^(interval|comment):$", cell_methods[0]
+                        ):
                             units = cell_methods.pop(0)
                         else:
+                            # No units: the next word closes the
+                            # parentheses, or starts the next interval
+                            # or the comment
                             units = None
 
                         try:
